@@ -74,8 +74,6 @@ def classify(c: dict, obs: str, detail: str) -> str | None:
             return "C19-F11"
     if fam == "mhab" and obs.split(" ")[0].endswith("/1") and c["qb"] and c["qb_shape"] != "D":
         return "C19-F12"
-    if fam == "pipe" and detail.startswith("FAIL:second application") and c["q_proj"] == "scale_bias" and not c.get("mask1d"):
-        return "C19-F16"
     if fam == "rms" and fired(obs):
         if c["scale_cast"] and c["sdt"] != c["tdt"] and ",scale)" in obs:
             return "C19-F6"
@@ -176,6 +174,10 @@ def branches(c: dict, obs: str) -> list[str]:
             t.append("shapeopt:" + obs.split(" ")[1].split("(")[0])
     elif fam in ("pqkv", "attn", "i2g", "mhab", "softmax"):
         t.append(f"{fam}:{obs.split(' ')[0]}")
+        if fam == "mhab" and c["pre_scale"] is not None and c["scale_const"]:
+            # FuseMHAScale.check since a202620: a node that already has a bias input is refused (both ways required)
+            t.append("mhab:mha_scale:" + ("bias_present" if c.get("bias0") else "bias_absent") + ":"
+                     + ("fired" if obs.startswith("count=1/") else "refused"))
     return t
 
 
@@ -205,7 +207,8 @@ REQUIRED_BRANCHES = [
     "second:rms:fixpoint", "second:skip:fixpoint", "second:gelu:fixpoint", "second:biasgelu:fixpoint", "second:softmax:fixpoint",
     "second:fmm:fixpoint", "second:rope:fixpoint", "second:rope:fired", "second:sdpa:fixpoint", "second:mha:fixpoint",
     "second:i2g:fixpoint", "second:attn:fixpoint", "second:gqa:fixpoint", "second:pqkv:fixpoint", "second:mhab:fixpoint",
-    "second:shapeopt:fixpoint", "second:pipe:fixpoint", "second:pipe:fired",
+    "second:shapeopt:fixpoint", "second:pipe:fixpoint",
+    "mhab:mha_scale:bias_absent:fired", "mhab:mha_scale:bias_present:refused",
     "second:pipe:none", "second:pipe:scale", "second:pipe:bias", "second:pipe:scale_bias", "second:pipe:bias_scale",
 ]
 
@@ -598,13 +601,14 @@ def main(run: core.Run) -> None:
     regressed = []
     for (c, r), m in zip(results, outs):
         fid = fixed_by_witness.get(json.dumps(c, sort_keys=True))
-        if fid and (m != r["obs"] or r["res"].startswith("FAIL") or r["res_e2e"].startswith("FAIL")):
+        if fid and (m != r["obs"] or r["res"].startswith("FAIL") or r["res_e2e"].startswith("FAIL")
+                    or str(r.get("res2", "ok")).startswith("FAIL")):
             regressed.append((fid, c, r, m))
     for fid, c, r, m in regressed:
         run.violation(
             {"case": c, "line": r["line"], "impl": r["obs"], "model": m, "numeric": r["res"], "finding": fid},
             f"fixed finding {fid} is back: its witness shows the pre-fix behaviour: {r['line']} :: impl {r['obs']} "
-            f":: model {m} :: {r['res']}",
+            f":: model {m} :: {r['res']}" + (f" :: {r['res2']}" if str(r.get("res2", "ok")).startswith("FAIL") else ""),
         )
 
     # ---- verdict
